@@ -116,13 +116,13 @@ func (s *State) Equal(o *State) bool {
 
 // Op is one logical write operation.
 type Op struct {
-	K    string `json:"k"`             // set del delsized sdel merge delrange rkset rkunset rkdel logdata
-	A    string `json:"a,omitempty"`   // key, or span start
-	B    string `json:"b,omitempty"`   // span end
-	S    int    `json:"s,omitempty"`   // range-key suffix number
-	V    string `json:"v,omitempty"`   // value tag (unique per op)
-	VLen int    `json:"vl,omitempty"`  // value is padded to this length if larger than the tag
-	N    int    `json:"n,omitempty"`   // delsized size hint
+	K    string `json:"k"`            // set del delsized sdel merge delrange rkset rkunset rkdel logdata
+	A    string `json:"a,omitempty"`  // key, or span start
+	B    string `json:"b,omitempty"`  // span end
+	S    int    `json:"s,omitempty"`  // range-key suffix number
+	V    string `json:"v,omitempty"`  // value tag (unique per op)
+	VLen int    `json:"vl,omitempty"` // value is padded to this length if larger than the tag
+	N    int    `json:"n,omitempty"`  // delsized size hint
 }
 
 func (o Op) String() string {
@@ -321,8 +321,8 @@ type IterOpts struct {
 	Lower string `json:"lo,omitempty"` // "" = none
 	Upper string `json:"hi,omitempty"` // "" = none
 	KT    int    `json:"kt,omitempty"`
-	Mask  int    `json:"mask,omitempty"`   // RangeKeyMasking.Suffix number; 0 = no masking
-	MaskF bool   `json:"maskf,omitempty"`  // also install the block-property filter mask
+	Mask  int    `json:"mask,omitempty"`  // RangeKeyMasking.Suffix number; 0 = no masking
+	MaskF bool   `json:"maskf,omitempty"` // also install the block-property filter mask
 }
 
 // Pos is what the model says an iterator shows at a position.
